@@ -4,7 +4,7 @@ CONSTANTS
   Codes <- CodesRep0
   Kinds = {"req", "rpl", "near"}
   Starts = {0, 3}
-  CutModes = {0, 1}
+  CutModes = {0, 1, 2, 3, 4}
   Junk = 34
 INVARIANTS EmitDecl EmitAuto DeclOnModel DeclKindOnModel GhostAgrees
 CHECK_DEADLOCK FALSE
